@@ -810,6 +810,10 @@ def _subject_e2e(plan):
     pulls = []
 
     def source(n, pulls=pulls, op=op, gen=gen):
+      if len(pulls) >= MAX_ROUNDS:
+        # a call on an input below the statement's sizes may never decide
+        # (e.g. a test that returns the same borderline p-value every round)
+        raise _Overrun("source pulled more than %d times" % MAX_ROUNDS)
       seed = op["seeds"][len(pulls) % len(op["seeds"])] + len(pulls)
       pulls.append(seed)
       return gen.RandomBits(n, seed=seed)
@@ -840,6 +844,9 @@ def _subject_e2e(plan):
         ret = rts.TestBitString(source(op["n"]), op["n"],
                                 test_prefix=op["prefix"], log_level=1)
       ev["ret"] = ret if isinstance(ret, bool) or ret is None else repr(ret)
+    except _Overrun as ex:
+      ev["exc"] = "Overrun: %s" % ex
+      ev["overrun"] = True
     except Exception as ex:  # pylint: disable=broad-except
       ev["exc"] = "%s: %s" % (type(ex).__name__, str(ex)[:160])
     finally:
@@ -873,6 +880,12 @@ def judge_e2e(plan, res):
       st["probes"]["call_fault_fired"] = \
           st["probes"].get("call_fault_fired", 0) + 1
       continue      # the faulted call is not judged; the following ones are
+    if ev.get("overrun") and op["op"] != "free":
+      viol.append(_v("liveness", i, "e2e",
+                     "%s on %d bits of %s (prefix %s) still undecided after "
+                     "%d rounds" % (op["entry"], op["n"], op["gen"],
+                                    op["prefix"], MAX_ROUNDS)))
+      continue
     if "exc" in ev and op["op"] == "free":
       # inputs below the statement's sizes (2^16 / 2^20 bits): some tests
       # raise a plain ValueError there; this call is only "earlier work"
